@@ -22,33 +22,49 @@ def nfEval (env : Env) : Option Atom × Rat → Option Rat
   | (none, c) => some c
   | (some a, c) => (a.eval env).map (· + c)
 
-/-- the environment describes a call in which `reduced p` (elements combined per result element) is
-    what `p.size // result.size` computes — true of every reduction (`sizeRatio_eq_reduced`) -/
+/-- the environment describes a call in which, for the parameters `ps`, `reduced p` (elements combined
+    per result element) is what `p.size // result.size` computes — true of every reduction
+    (`sizeRatio_eq_reduced`).  Only the parameters an expression really mentions matter: for the
+    expressions without `.reduced` (everything the translator emits, and every reference entry except
+    `np.prod`'s) the condition is empty and holds in EVERY environment, in particular in the ones the
+    driver builds (`Ops/C07.lean: c07Env`); for `np.prod` the driver's environment carries the measured
+    count and `c07.predict` reports whether the condition holds (`envValidForB`). -/
+def EnvValidFor (ps : List String) (env : Env) : Prop :=
+  ∀ p ∈ ps, (Expo.reduced p).eval env = (Expo.sizeRatio p).eval env
+
+theorem envValidForB_iff (ps : List String) (env : Env) : envValidForB ps env = true ↔ EnvValidFor ps env := by
+  simp [envValidForB, EnvValidFor]
+
+/-- the strong form (all parameters) -/
 def EnvValid (env : Env) : Prop :=
   ∀ p, (Expo.reduced p).eval env = (Expo.sizeRatio p).eval env
 
-theorem nf_eval (env : Env) (hv : EnvValid env) :
-    ∀ (e : Expo) (x : Option Atom × Rat), e.nf = some x → e.eval env = nfEval env x := by
+theorem EnvValid.for {env : Env} (h : EnvValid env) (ps : List String) : EnvValidFor ps env :=
+  fun p _ => h p
+
+theorem nf_eval (env : Env) :
+    ∀ (e : Expo) (x : Option Atom × Rat), EnvValidFor e.reducedParams env → e.nf = some x →
+      e.eval env = nfEval env x := by
   intro e
   induction e with
-  | const q => intro x h; simp only [Expo.nf, Option.some.injEq] at h; subst h; rfl
+  | const q => intro x _ h; simp only [Expo.nf, Option.some.injEq] at h; subst h; rfl
   | dim p i =>
-    intro x h; simp only [Expo.nf, Option.some.injEq] at h; subst h
+    intro x _ h; simp only [Expo.nf, Option.some.injEq] at h; subst h
     simp only [nfEval, Atom.eval]
     cases (Expo.dim p i).eval env <;> simp [Rat.add_zero]
   | sizeRatio p =>
-    intro x h; simp only [Expo.nf, Option.some.injEq] at h; subst h
+    intro x _ h; simp only [Expo.nf, Option.some.injEq] at h; subst h
     simp only [nfEval, Atom.eval]
     cases (Expo.sizeRatio p).eval env <;> simp [Rat.add_zero]
   | reduced p =>
-    intro x h; simp only [Expo.nf, Option.some.injEq] at h; subst h
+    intro x hv h; simp only [Expo.nf, Option.some.injEq] at h; subst h
     simp only [nfEval, Atom.eval]
-    rw [hv p]
+    rw [hv p (by simp [Expo.reducedParams])]
     cases (Expo.sizeRatio p).eval env <;> simp [Rat.add_zero]
-  | nops p => intro x h; simp [Expo.nf] at h
-  | unknown => intro x h; simp [Expo.nf] at h
+  | nops p => intro x _ h; simp [Expo.nf] at h
+  | unknown => intro x _ h; simp [Expo.nf] at h
   | plusConst e q ih =>
-    intro x h
+    intro x hv h
     simp only [Expo.nf] at h
     cases hn : e.nf with
     | none => simp [hn] at h
@@ -56,16 +72,18 @@ theorem nf_eval (env : Env) (hv : EnvValid env) :
       obtain ⟨a, c⟩ := y
       simp only [hn, Option.map_some, Option.some.injEq] at h
       subst h
-      simp only [Expo.eval, ih (a, c) hn]
+      simp only [Expo.eval, ih (a, c) (by simpa [Expo.reducedParams] using hv) hn]
       cases a with
       | none => simp [nfEval]
       | some at' =>
         simp only [nfEval]
         cases at'.eval env <;> simp [Rat.add_assoc]
 
-/-- `same` is sound: expressions with the same normal form evaluate alike in every valid call -/
-theorem same_sound (env : Env) (hv : EnvValid env) (a b : Expo) (h : a.same b = true) :
-    a.eval env = b.eval env := by
+/-- `same` is sound: expressions with the same normal form evaluate alike in every call in which the
+    reduced counts THEY mention are what `size // result.size` computes -/
+theorem same_sound (env : Env) (a b : Expo)
+    (hva : EnvValidFor a.reducedParams env) (hvb : EnvValidFor b.reducedParams env)
+    (h : a.same b = true) : a.eval env = b.eval env := by
   unfold Expo.same at h
   cases ha : a.nf with
   | none => simp [ha] at h
@@ -74,7 +92,33 @@ theorem same_sound (env : Env) (hv : EnvValid env) (a b : Expo) (h : a.same b = 
     | none => simp [ha, hb] at h
     | some y =>
       simp only [ha, hb, beq_iff_eq] at h
-      rw [nf_eval env hv a x ha, nf_eval env hv b y hb, h]
+      rw [nf_eval env a x hva ha, nf_eval env b y hvb hb, h]
+
+/-! ### list helpers -/
+
+theorem find_of_nodup (l : List (String × Expo)) (g : String) (ex : Expo)
+    (h : (g, ex) ∈ l) (hn : (l.map (·.1)).Nodup) : l.find? (fun x => x.1 == g) = some (g, ex) := by
+  induction l with
+  | nil => simp at h
+  | cons a t ih =>
+    simp only [List.map_cons, List.nodup_cons] at hn
+    simp only [List.mem_cons] at h
+    rcases h with rfl | hin
+    · simp [List.find?]
+    · have hne : a.1 ≠ g := by
+        intro h; apply hn.1; rw [h]; exact List.mem_map_of_mem (f := (·.1)) hin
+      have hb : (a.1 == g) = false := by simpa using hne
+      simp only [List.find?, hb]
+      exact ih hin hn.2
+
+theorem mapM_congr_opt {α β : Type} (f g : α → Option β) :
+    ∀ l : List α, (∀ a ∈ l, f a = g a) → l.mapM f = l.mapM g := by
+  intro l
+  induction l with
+  | nil => intro _; rfl
+  | cons a t ih =>
+    intro h
+    simp only [List.mapM_cons, h a (List.mem_cons_self ..), ih (fun b hb => h b (List.mem_cons_of_mem _ hb))]
 
 /-! ### an accepted row: what an empty defect list says, leaf by leaf -/
 
